@@ -35,10 +35,28 @@ def setup(shard):
     env.eop("missing-pass")
 
 
+_LABELS = {"epoch": "UTC", "target": "UTC"}
+LABELS = ["UTC", "UTC", "UTC", "TT", "GPS", "TAI"]  # exact offsets: the same instants to the microsecond
+
+
+def use_labels(case):
+    """The time scale the epoch (t = 0) and every other date of this case are written in: the instants are
+    the same, so nothing may change."""
+    _LABELS["epoch"] = case.get("epoch_label", "UTC")
+    _LABELS["target"] = case.get("label", "UTC")
+
+
+def label_cls(case):
+    ls = {case.get("label", "UTC"), case.get("epoch_label", "UTC")}
+    return ["labels:all-UTC"] if ls == {"UTC"} else ["labels:" + "+".join(sorted(ls))]
+
+
 def mkdate(us):
     from beyond.dates import Date
 
-    return Date(T0 + timedelta(microseconds=us))
+    d = Date(T0 + timedelta(microseconds=us))
+    label = _LABELS["epoch"] if us == 0 else _LABELS["target"]
+    return d if label == "UTC" else d.change_scale(label)
 
 
 @st.composite
@@ -53,7 +71,8 @@ def base_case(draw, methods, hmin=5, hmax=120, even=False):
         h += 1
     method = draw(st.sampled_from(methods))
     back = draw(st.integers(0, 3)) == 0
-    return dict(el=el, h=h, method=method, back=back)
+    return dict(el=el, h=h, method=method, back=back, label=draw(st.sampled_from(LABELS)),
+                epoch_label=draw(st.sampled_from(LABELS)))
 
 
 def build(case, h=None, tol=1e-3):
@@ -105,6 +124,7 @@ def order_case(draw):
 
 
 def check_order(case):
+    use_labels(case)
     p = METHOD_ORDER[case["method"]]
     h = case["h"]
     T = case["N"] * h * (-1 if case["back"] else 1)
@@ -131,7 +151,7 @@ def check_order(case):
         cls.append("ratio-tested")
     else:
         nt = False
-    return dict(nt=nt, cls=cls, ratio=ratio_b)
+    return dict(nt=nt, cls=label_cls(case) + cls, ratio=ratio_b)
 
 
 # ---------------------------------------------------------------- adaptive
@@ -149,6 +169,7 @@ def adaptive_case(draw):
 
 
 def check_adaptive(case):
+    use_labels(case)
     orb, cart, mu = build(case, tol=case["tol"])
     T = case["T_us"] * 1e-6
     res = orb.propagate(mkdate(case["T_us"]))
@@ -162,7 +183,7 @@ def check_adaptive(case):
     if err > bound:
         raise Violation("adaptive-error", f"{case['method']} tol={case['tol']} h={case['h']}s T={T:.1f}s: error {err:.4g} m "
                                           f"> {bound:.4g} m")
-    return dict(nt=True, cls=[case["method"], f"tol={case['tol']}", "backward" if case["back"] else "forward"],
+    return dict(nt=True, cls=label_cls(case) + [case["method"], f"tol={case['tol']}", "backward" if case["back"] else "forward"],
                 ratio=err / bound)
 
 
@@ -180,6 +201,7 @@ def short_case(draw):
 
 
 def check_short(case):
+    use_labels(case)
     orb, cart, mu = build(case, tol=1e-3)
     T = case["T_us"] * 1e-6
     res = orb.propagate(mkdate(case["T_us"]))
@@ -201,7 +223,7 @@ def check_short(case):
     bound = 3 * bound + 2.5 * a * (wp * h) ** 8 + 0.05
     if err > bound:
         raise Violation("short-target", f"{case['method']} h={h}s: target {T:.3f}s from the epoch is off by {err:.4g} m (> {bound:.4g} m)")
-    return dict(nt=abs(T) > 1e-3, cls=[case["method"], "backward" if T < 0 else "forward", "on-grid" if case["T_us"] % (h * 10**6) == 0 else "off-grid"],
+    return dict(nt=abs(T) > 1e-3, cls=label_cls(case) + [case["method"], "backward" if T < 0 else "forward", "on-grid" if case["T_us"] % (h * 10**6) == 0 else "off-grid"],
                 ratio=err / bound)
 
 
@@ -224,6 +246,7 @@ C_INV = {"euler": 60.0, "rk4": 5.0}
 
 
 def check_invariants(case):
+    use_labels(case)
     orb, cart, mu = build(case, tol=1e-3)
     T = case["T_us"] * 1e-6
     got = pos(orb.propagate(mkdate(case["T_us"])))
@@ -245,7 +268,7 @@ def check_invariants(case):
         bound = 100 * 1e-3 * steps / (case["el"]["a"] * (1 - case["el"]["e"])) * 3 + floor
     if dE > bound or dh > bound:
         raise Violation("invariant-drift", f"{case['method']} h={h}s T={T:.1f}s: |dE/E|={dE:.3g} |dh/h|={dh:.3g} > {bound:.3g}")
-    return dict(nt=True, cls=[case["method"], "backward" if case["back"] else "forward"], ratio=max(dE, dh) / bound)
+    return dict(nt=True, cls=label_cls(case) + [case["method"], "backward" if case["back"] else "forward"], ratio=max(dE, dh) / bound)
 
 
 # ---------------------------------------------------------------- split / output step
@@ -269,6 +292,7 @@ def split_case(draw):
 
 
 def check_split(case):
+    use_labels(case)
     h, N, s_out, m = case["h"], case["N"], case["s_out"], case["m"]
     T = m * s_out
     if T > N * h:
@@ -309,7 +333,7 @@ def check_split(case):
         if d > tol_c:
             raise Violation("split-on-grid", f"{case['method']} h={h}s: propagate({t1}s) then propagate to {T2}s differs from the "
                                              f"direct result by {d:.4g} m (allowed {tol_c:.4g} m)")
-    return dict(nt=T % h != 0, cls=[case["method"], "target-off-grid" if T % h else "target-on-grid"], ratio=worst)
+    return dict(nt=T % h != 0, cls=label_cls(case) + [case["method"], "target-off-grid" if T % h else "target-on-grid"], ratio=worst)
 
 
 # ---------------------------------------------------------------- re-configured propagator object
@@ -331,6 +355,7 @@ def check_reconf(case):
     repository's own tests do with `.method`), used again: every result must be the one a fresh,
     identically configured propagator gives (the state returned for a date does not depend on how the
     request history went)."""
+    use_labels(case)
     from beyond.env.solarsystem import get_body
     from beyond.orbits import Orbit
     from beyond.propagators.keplernum import KeplerNum
@@ -366,7 +391,7 @@ def check_reconf(case):
         if d > allowed:
             raise Violation("reconfigured-propagator", f"propagator re-configured to ({method}, h={h}s, tol={tol}) after earlier use gives a state "
                                                        f"{d:.4g} m away from a fresh propagator with the same configuration (allowed {allowed:.3g} m)")
-    return dict(nt=True, cls=[case["method"]] + ["chg:" + c for c in case["changes"]], ratio=worst)
+    return dict(nt=True, cls=label_cls(case) + [case["method"]] + ["chg:" + c for c in case["changes"]], ratio=worst)
 
 
 FACETS = [
